@@ -1,155 +1,179 @@
 /-
   C18 — fitness comparison is a coherent order; dominance is a strict partial order.
 
-  `Gen.opLt … Gen.opNe`, `Gen.mmGe` are regenerated from the clang AST of fitness.tcc /
-  model_measurements.h on every run (tools/translate_fitness_ops.py): they say which
-  operator calls which algorithm / which other operator.  Everything below is proved
-  about those generated definitions, for every carrier `α` and every `key : α → Int`
-  (for doubles: every NaN-free vector of any length over finite values, both zeros, ±∞).
+  `Gen.opLt … Gen.opNe`, `Gen.dominating`, `Gen.mmGe`, the element-wise arithmetic, the
+  predicates, `Gen.distance`, `Gen.combine`, `Gen.showFit` and the scalar helpers of utility.h
+  are regenerated from the clang AST of fitness.tcc / utility.h / model_measurements.h on every
+  run (tools/translate_fitness_ops.py) as terms of the loop language of `Loop.lean`: BODIES, not
+  a derivation table.  Every theorem below is about those generated terms, for every carrier,
+  every `key : α → Int` (for doubles: every NaN-free vector of any length over finite values,
+  both zeros, ±∞), every representation equality and every arithmetic (`Ctx`).
+  `opLt K a b` etc. (`Ops.lean`) name the value the generated code returns.
 -/
-import Vita.C18.Lemmas
+import Vita.C18.Bridge
 import Vita.C18.GenOps
+import Vita.C18.Users
 
 set_option linter.unusedSimpArgs false
 set_option linter.unusedVariables false
 
 namespace Vita.C18
-open Vita.C18.Gen
 
 section
-variable {α : Type} (key : α → Int)
+variable {α : Type} (K : Ctx α)
 
-/-! ### the six operators are the lexicographic order (`lexCmp` is the specification) -/
+/-! ### the generated code of the six operators never faults and is the lexicographic order
+    (`lexCmp` is the specification).  One proof script for all six: unfold the generated bodies,
+    rewrite the library algorithms to `lexCmp`, split on its value. -/
 
-theorem lt_is_lex (a b : List α) : opLt key a b = (lexCmp key a b == .lt) := by
-  simp only [opLt, opEq, opGt, opGe, opLe, opNe, lexLt_eq_cmp, equal4_eq_cmp, equal3_guarded]
-  try simp only [lexCmp_swap key a b]
-  try (cases lexCmp key a b <;> rfl)
-
-theorem eq_is_lex (a b : List α) : opEq key a b = (lexCmp key a b == .eq) := by
-  simp only [opLt, opEq, opGt, opGe, opLe, opNe, lexLt_eq_cmp, equal4_eq_cmp, equal3_guarded]
-  try simp only [lexCmp_swap key a b]
-  try (cases lexCmp key a b <;> rfl)
-
-theorem gt_is_lex (a b : List α) : opGt key a b = (lexCmp key a b == .gt) := by
-  simp only [opLt, opEq, opGt, opGe, opLe, opNe, lexLt_eq_cmp, equal4_eq_cmp, equal3_guarded]
-  try simp only [lexCmp_swap key a b]
-  try (cases lexCmp key a b <;> rfl)
-
-theorem ge_is_lex (a b : List α) : opGe key a b = (lexCmp key a b != .lt) := by
-  simp only [opLt, opEq, opGt, opGe, opLe, opNe, lexLt_eq_cmp, equal4_eq_cmp, equal3_guarded]
-  try simp only [lexCmp_swap key a b]
-  try (cases lexCmp key a b <;> rfl)
-
-theorem le_is_lex (a b : List α) : opLe key a b = (lexCmp key a b != .gt) := by
-  simp only [opLt, opEq, opGt, opGe, opLe, opNe, lexLt_eq_cmp, equal4_eq_cmp, equal3_guarded]
-  try simp only [lexCmp_swap key a b]
-  try (cases lexCmp key a b <;> rfl)
-
-theorem ne_is_lex (a b : List α) : opNe key a b = (lexCmp key a b != .eq) := by
-  simp only [opLt, opEq, opGt, opGe, opLe, opNe, lexLt_eq_cmp, equal4_eq_cmp, equal3_guarded]
-  try simp only [lexCmp_swap key a b]
-  try (cases lexCmp key a b <;> rfl)
+theorem lt_code (a b : List α) : Gen.opLt K.cmp K.ops a b = some (lexCmp K.key a b == .lt) := by
+  simp only [Gen.opLt, Gen.opEq, Gen.opGt, Gen.opGe, Gen.opLe, Gen.opNe, Ctx.cmp, call_some, call_none,
+    call_equal3C_guard, call_equal3C_guard', ite_some_and, ite_some_or, ite_some_not_and, ite_some_not_or,
+    lexLtC_key, equal4C_key, lexLt_eq_cmp, equal4_eq_cmp, equal3_guarded, apply_ite, ite_self]
+  try simp only [lexCmp_swap K.key a b]
+  try (cases lexCmp K.key a b <;> rfl)
+theorem eq_code (a b : List α) : Gen.opEq K.cmp K.ops a b = some (lexCmp K.key a b == .eq) := by
+  simp only [Gen.opLt, Gen.opEq, Gen.opGt, Gen.opGe, Gen.opLe, Gen.opNe, Ctx.cmp, call_some, call_none,
+    call_equal3C_guard, call_equal3C_guard', ite_some_and, ite_some_or, ite_some_not_and, ite_some_not_or,
+    lexLtC_key, equal4C_key, lexLt_eq_cmp, equal4_eq_cmp, equal3_guarded, apply_ite, ite_self]
+  try simp only [lexCmp_swap K.key a b]
+  try (cases lexCmp K.key a b <;> rfl)
+theorem gt_code (a b : List α) : Gen.opGt K.cmp K.ops a b = some (lexCmp K.key a b == .gt) := by
+  simp only [Gen.opLt, Gen.opEq, Gen.opGt, Gen.opGe, Gen.opLe, Gen.opNe, Ctx.cmp, call_some, call_none,
+    call_equal3C_guard, call_equal3C_guard', ite_some_and, ite_some_or, ite_some_not_and, ite_some_not_or,
+    lexLtC_key, equal4C_key, lexLt_eq_cmp, equal4_eq_cmp, equal3_guarded, apply_ite, ite_self]
+  try simp only [lexCmp_swap K.key a b]
+  try (cases lexCmp K.key a b <;> rfl)
+theorem ge_code (a b : List α) : Gen.opGe K.cmp K.ops a b = some (lexCmp K.key a b != .lt) := by
+  simp only [Gen.opLt, Gen.opEq, Gen.opGt, Gen.opGe, Gen.opLe, Gen.opNe, Ctx.cmp, call_some, call_none,
+    call_equal3C_guard, call_equal3C_guard', ite_some_and, ite_some_or, ite_some_not_and, ite_some_not_or,
+    lexLtC_key, equal4C_key, lexLt_eq_cmp, equal4_eq_cmp, equal3_guarded, apply_ite, ite_self]
+  try simp only [lexCmp_swap K.key a b]
+  try (cases lexCmp K.key a b <;> rfl)
+theorem le_code (a b : List α) : Gen.opLe K.cmp K.ops a b = some (lexCmp K.key a b != .gt) := by
+  simp only [Gen.opLt, Gen.opEq, Gen.opGt, Gen.opGe, Gen.opLe, Gen.opNe, Ctx.cmp, call_some, call_none,
+    call_equal3C_guard, call_equal3C_guard', ite_some_and, ite_some_or, ite_some_not_and, ite_some_not_or,
+    lexLtC_key, equal4C_key, lexLt_eq_cmp, equal4_eq_cmp, equal3_guarded, apply_ite, ite_self]
+  try simp only [lexCmp_swap K.key a b]
+  try (cases lexCmp K.key a b <;> rfl)
+theorem ne_code (a b : List α) : Gen.opNe K.cmp K.ops a b = some (lexCmp K.key a b != .eq) := by
+  simp only [Gen.opLt, Gen.opEq, Gen.opGt, Gen.opGe, Gen.opLe, Gen.opNe, Ctx.cmp, call_some, call_none,
+    call_equal3C_guard, call_equal3C_guard', ite_some_and, ite_some_or, ite_some_not_and, ite_some_not_or,
+    lexLtC_key, equal4C_key, lexLt_eq_cmp, equal4_eq_cmp, equal3_guarded, apply_ite, ite_self]
+  try simp only [lexCmp_swap K.key a b]
+  try (cases lexCmp K.key a b <;> rfl)
+theorem lt_is_lex (a b : List α) : opLt K a b = (lexCmp K.key a b == .lt) := by
+  unfold opLt; rw [lt_code]; rfl
+theorem eq_is_lex (a b : List α) : opEq K a b = (lexCmp K.key a b == .eq) := by
+  unfold opEq; rw [eq_code]; rfl
+theorem gt_is_lex (a b : List α) : opGt K a b = (lexCmp K.key a b == .gt) := by
+  unfold opGt; rw [gt_code]; rfl
+theorem ge_is_lex (a b : List α) : opGe K a b = (lexCmp K.key a b != .lt) := by
+  unfold opGe; rw [ge_code]; rfl
+theorem le_is_lex (a b : List α) : opLe K a b = (lexCmp K.key a b != .gt) := by
+  unfold opLe; rw [le_code]; rfl
+theorem ne_is_lex (a b : List α) : opNe K a b = (lexCmp K.key a b != .eq) := by
+  unfold opNe; rw [ne_code]; rfl
 
 /-- `==` means: same length and component-wise equal keys (for doubles: equal values,
     the two zeros being equal). -/
-theorem eq_iff_keys (a b : List α) : opEq key a b = true ↔ a.map key = b.map key := by
+theorem eq_iff_keys (a b : List α) : opEq K a b = true ↔ a.map K.key = b.map K.key := by
   rw [eq_is_lex, ← lexCmp_eq_iff]; simp
 
 /-! ### mutual consistency of the six operators -/
 
 /-- for any two vectors (any lengths) exactly one of `a<b`, `a==b`, `a>b` holds -/
 theorem lex_trichotomy (a b : List α) :
-    (opLt key a b = true ∧ opEq key a b = false ∧ opGt key a b = false) ∨
-    (opLt key a b = false ∧ opEq key a b = true ∧ opGt key a b = false) ∨
-    (opLt key a b = false ∧ opEq key a b = false ∧ opGt key a b = true) := by
+    (opLt K a b = true ∧ opEq K a b = false ∧ opGt K a b = false) ∨
+    (opLt K a b = false ∧ opEq K a b = true ∧ opGt K a b = false) ∨
+    (opLt K a b = false ∧ opEq K a b = false ∧ opGt K a b = true) := by
   rw [lt_is_lex, eq_is_lex, gt_is_lex]
-  cases lexCmp key a b <;> simp
+  cases lexCmp K.key a b <;> simp
 
-theorem ge_iff_not_lt (a b : List α) : opGe key a b = !opLt key a b := by
-  rw [ge_is_lex, lt_is_lex]; cases lexCmp key a b <;> rfl
+theorem ge_iff_not_lt (a b : List α) : opGe K a b = !opLt K a b := by
+  rw [ge_is_lex, lt_is_lex]; cases lexCmp K.key a b <;> rfl
 
-theorem le_iff_not_gt (a b : List α) : opLe key a b = !opGt key a b := by
-  rw [le_is_lex, gt_is_lex]; cases lexCmp key a b <;> rfl
+theorem le_iff_not_gt (a b : List α) : opLe K a b = !opGt K a b := by
+  rw [le_is_lex, gt_is_lex]; cases lexCmp K.key a b <;> rfl
 
-theorem gt_iff_lt_swap (a b : List α) : opGt key a b = opLt key b a := by
-  rw [gt_is_lex, lt_is_lex, lexCmp_swap key a b]; cases lexCmp key a b <;> rfl
+theorem gt_iff_lt_swap (a b : List α) : opGt K a b = opLt K b a := by
+  rw [gt_is_lex, lt_is_lex, lexCmp_swap K.key a b]; cases lexCmp K.key a b <;> rfl
 
-theorem ne_iff_not_eq (a b : List α) : opNe key a b = !opEq key a b := by
-  rw [ne_is_lex, eq_is_lex]; cases lexCmp key a b <;> rfl
+theorem ne_iff_not_eq (a b : List α) : opNe K a b = !opEq K a b := by
+  rw [ne_is_lex, eq_is_lex]; cases lexCmp K.key a b <;> rfl
 
-theorem ge_iff_gt_or_eq (a b : List α) : opGe key a b = (opGt key a b || opEq key a b) := by
-  rw [ge_is_lex, gt_is_lex, eq_is_lex]; cases lexCmp key a b <;> rfl
+theorem ge_iff_gt_or_eq (a b : List α) : opGe K a b = (opGt K a b || opEq K a b) := by
+  rw [ge_is_lex, gt_is_lex, eq_is_lex]; cases lexCmp K.key a b <;> rfl
 
-theorem le_iff_ge_swap (a b : List α) : opLe key a b = opGe key b a := by
-  rw [le_is_lex, ge_is_lex, lexCmp_swap key a b]; cases lexCmp key a b <;> rfl
+theorem le_iff_ge_swap (a b : List α) : opLe K a b = opGe K b a := by
+  rw [le_is_lex, ge_is_lex, lexCmp_swap K.key a b]; cases lexCmp K.key a b <;> rfl
 
 /-! ### order laws -/
 
-theorem lt_irrefl (a : List α) : opLt key a a = false := by
+theorem lt_irrefl (a : List α) : opLt K a a = false := by
   rw [lt_is_lex, lexCmp_refl]; rfl
 
 theorem lt_trans (a b c : List α) :
-    opLt key a b = true → opLt key b c = true → opLt key a c = true := by
+    opLt K a b = true → opLt K b c = true → opLt K a c = true := by
   rw [lt_is_lex, lt_is_lex, lt_is_lex]
   intro h1 h2
-  have := lexCmp_lt_trans key a b c (by simpa using h1) (by simpa using h2)
+  have := lexCmp_lt_trans K.key a b c (by simpa using h1) (by simpa using h2)
   simp [this]
 
 /-- better-than is transitive -/
 theorem gt_trans (a b c : List α) :
-    opGt key a b = true → opGt key b c = true → opGt key a c = true := by
+    opGt K a b = true → opGt K b c = true → opGt K a c = true := by
   rw [gt_iff_lt_swap, gt_iff_lt_swap, gt_iff_lt_swap]
-  intro h1 h2; exact lt_trans key c b a h2 h1
+  intro h1 h2; exact lt_trans K c b a h2 h1
 
-theorem lt_asymm (a b : List α) : opLt key a b = true → opLt key b a = false := by
-  rw [lt_is_lex, lt_is_lex, lexCmp_swap key a b]; cases lexCmp key a b <;> simp
+theorem lt_asymm (a b : List α) : opLt K a b = true → opLt K b a = false := by
+  rw [lt_is_lex, lt_is_lex, lexCmp_swap K.key a b]; cases lexCmp K.key a b <;> simp
 
-theorem eq_refl (a : List α) : opEq key a a = true := by
+theorem eq_refl (a : List α) : opEq K a a = true := by
   rw [eq_is_lex, lexCmp_refl]; rfl
 
-theorem eq_symm (a b : List α) : opEq key a b = opEq key b a := by
-  rw [eq_is_lex, eq_is_lex, lexCmp_swap key a b]; cases lexCmp key a b <;> rfl
+theorem eq_symm (a b : List α) : opEq K a b = opEq K b a := by
+  rw [eq_is_lex, eq_is_lex, lexCmp_swap K.key a b]; cases lexCmp K.key a b <;> rfl
 
 theorem eq_trans (a b c : List α) :
-    opEq key a b = true → opEq key b c = true → opEq key a c = true := by
+    opEq K a b = true → opEq K b c = true → opEq K a c = true := by
   rw [eq_is_lex, eq_is_lex, eq_is_lex]
   intro h1 h2
-  have := lexCmp_eq_trans key a b c (by simpa using h1) (by simpa using h2)
+  have := lexCmp_eq_trans K.key a b c (by simpa using h1) (by simpa using h2)
   simp [this]
 
 /-- `==`-equal vectors are interchangeable in every comparison -/
-theorem lt_congr (a a' b b' : List α) (h1 : opEq key a a' = true) (h2 : opEq key b b' = true) :
-    opLt key a b = opLt key a' b' := by
+theorem lt_congr (a a' b b' : List α) (h1 : opEq K a a' = true) (h2 : opEq K b b' = true) :
+    opLt K a b = opLt K a' b' := by
   rw [eq_is_lex] at h1 h2
-  rw [lt_is_lex, lt_is_lex, lexCmp_congr_left key a a' b (by simpa using h1),
-    lexCmp_congr_right key a' b b' (by simpa using h2)]
+  rw [lt_is_lex, lt_is_lex, lexCmp_congr_left K.key a a' b (by simpa using h1),
+    lexCmp_congr_right K.key a' b b' (by simpa using h2)]
 
 /-- `¬(a < b)` and `¬(b < c)` give `¬(a < c)`: `>=` is transitive, the order is a total preorder -/
 theorem ge_trans (a b c : List α) :
-    opGe key a b = true → opGe key b c = true → opGe key a c = true := by
+    opGe K a b = true → opGe K b c = true → opGe K a c = true := by
   rw [ge_iff_not_lt, ge_iff_not_lt, ge_iff_not_lt, lt_is_lex, lt_is_lex, lt_is_lex]
   intro h1 h2
-  cases h : lexCmp key a c with
+  cases h : lexCmp K.key a c with
   | lt =>
-    rcases lexCmp_lt_cases key a b c h with h' | h' <;> simp [h'] at h1 h2
+    rcases lexCmp_lt_cases K.key a b c h with h' | h' <;> simp [h'] at h1 h2
   | eq => rfl
   | gt => rfl
 
 /-! ### the winner of a selection does not depend on the order of comparison -/
 
 /-- the winner is a member that no member beats -/
-theorem winner_is_max (l : List (List α)) (w : List α) (h : winner (opGt key) l = some w) :
-    w ∈ l ∧ ∀ y ∈ l, opGt key y w = false := by
+theorem winner_is_max (l : List (List α)) (w : List α) (h : winner (opGt K) l = some w) :
+    w ∈ l ∧ ∀ y ∈ l, opGt K y w = false := by
   cases l with
   | nil => simp [winner] at h
   | cons x xs =>
     simp only [winner, Option.some.injEq] at h
-    have hf : (fun best y => if opGt key y best = true then y else best) =
-        (fun best y => if lexCmp key y best == .gt then y else best) := by
+    have hf : (fun best y => if opGt K y best = true then y else best) =
+        (fun best y => if lexCmp K.key y best == .gt then y else best) := by
       funext best y; rw [gt_is_lex]
     rw [hf] at h
-    have := foldl_best key xs x
+    have := foldl_best K.key xs x
     simp only at this
     rw [h] at this
     refine ⟨this.1, fun y hy => ?_⟩
@@ -158,41 +182,52 @@ theorem winner_is_max (l : List (List α)) (w : List α) (h : winner (opGt key) 
 
 /-- permuting the candidates changes the winner at most within its `==` class -/
 theorem winner_order_indep (l l' : List (List α)) (hp : l.Perm l') :
-    match winner (opGt key) l, winner (opGt key) l' with
-    | some w, some w' => opEq key w w' = true
+    match winner (opGt K) l, winner (opGt K) l' with
+    | some w, some w' => opEq K w w' = true
     | none, none => True
     | _, _ => False := by
-  cases h1 : winner (opGt key) l with
+  cases h1 : winner (opGt K) l with
   | none =>
     cases l with
     | nil => have := hp.symm.eq_nil; subst this; simp [winner]
     | cons _ _ => simp [winner] at h1
   | some w =>
-    cases h2 : winner (opGt key) l' with
+    cases h2 : winner (opGt K) l' with
     | none =>
       cases l' with
       | nil => have := hp.eq_nil; subst this; simp [winner] at h1
       | cons _ _ => simp [winner] at h2
     | some w' =>
       simp only
-      have m1 := winner_is_max key l w h1
-      have m2 := winner_is_max key l' w' h2
-      have a1 : opGt key w' w = false := m1.2 w' (hp.symm.subset m2.1)
-      have a2 : opGt key w w' = false := m2.2 w (hp.subset m1.1)
+      have m1 := winner_is_max K l w h1
+      have m2 := winner_is_max K l' w' h2
+      have a1 : opGt K w' w = false := m1.2 w' (hp.symm.subset m2.1)
+      have a2 : opGt K w w' = false := m2.2 w (hp.subset m1.1)
       rw [gt_iff_lt_swap] at a1
-      rcases lex_trichotomy key w w' with h | h | h
+      rcases lex_trichotomy K w w' with h | h | h
       · rw [h.1] at a1; simp at a1
       · exact h.2.1
       · rw [h.2.2] at a2; simp at a2
 
 /-! ### Pareto dominance on vectors of one dimension plus the empty vector -/
 
+/-- the generated body of `dominating()` (a loop over `min(size, size)` components with an early
+    exit) never faults — no component is read out of range, whatever the two lengths — and
+    computes the scan `dominating` of `Model.lean` -/
+theorem dom_code (a b : List α) :
+    Gen.dominating K.cmp K.ops a b = some (dominating K.key a b) :=
+  dominating_bridge K.key K.same K.ops a b
+
+theorem opDom_eq (a b : List α) : opDom K a b = dominating K.key a b := by
+  unfold opDom; rw [dom_code]; rfl
+
 /-- equal lengths, or one of the two is the empty fitness of a failed evaluation -/
 def SameDim (a b : List α) : Prop := a.length = b.length ∨ a = [] ∨ b = []
 
 /-- what `dominating` computes on equal lengths: nowhere worse, somewhere better -/
 theorem dom_iff (a b : List α) (h : a.length = b.length) :
-    dominating key a b = true ↔ allGe key a b ∧ exGt key a b := by
+    opDom K a b = true ↔ allGe K.key a b ∧ exGt K.key a b := by
+  rw [opDom_eq]
   unfold dominating
   rw [domLoop_iff]
   cases a with
@@ -203,43 +238,44 @@ theorem dom_iff (a b : List α) (h : a.length = b.length) :
     | cons y ys => simp
 
 theorem nonempty_dom_empty (a : List α) (h : a ≠ []) :
-    dominating key a [] = true ∧ dominating key [] a = false := by
+    opDom K a [] = true ∧ opDom K [] a = false := by
+  rw [opDom_eq, opDom_eq]
   cases a with
   | nil => exact absurd rfl h
   | cons x xs => simp [dominating, domLoop]
 
-theorem dom_irrefl (a : List α) : dominating key a a = false := by
-  cases h : dominating key a a with
+theorem dom_irrefl (a : List α) : opDom K a a = false := by
+  cases h : opDom K a a with
   | false => rfl
   | true =>
-    have := (dom_iff key a a rfl).1 h
-    exact absurd this.2 (allGe_refl_not_exGt key a)
+    have := (dom_iff K a a rfl).1 h
+    exact absurd this.2 (allGe_refl_not_exGt K.key a)
 
-theorem empty_dom_nothing (b : List α) : dominating key [] b = false := by
-  simp [dominating, domLoop]
+theorem empty_dom_nothing (b : List α) : opDom K [] b = false := by
+  rw [opDom_eq]; simp [dominating, domLoop]
 
 theorem dom_asymm (a b : List α) (hd : SameDim a b) :
-    dominating key a b = true → dominating key b a = false := by
+    opDom K a b = true → opDom K b a = false := by
   intro h
   rcases hd with hl | he | he
-  · cases h' : dominating key b a with
+  · cases h' : opDom K b a with
     | false => rfl
     | true =>
-      have p := (dom_iff key a b hl).1 h
-      have q := (dom_iff key b a hl.symm).1 h'
-      exact absurd p.2 (allGe_antisymm_no_exGt key a b hl p.1 q.1)
+      have p := (dom_iff K a b hl).1 h
+      have q := (dom_iff K b a hl.symm).1 h'
+      exact absurd p.2 (allGe_antisymm_no_exGt K.key a b hl p.1 q.1)
   · subst he; rw [empty_dom_nothing] at h; simp at h
-  · subst he; exact empty_dom_nothing key a
+  · subst he; exact empty_dom_nothing K a
 
 theorem dom_trans (a b c : List α) (h1 : SameDim a b) (h2 : SameDim b c) :
-    dominating key a b = true → dominating key b c = true → dominating key a c = true := by
+    opDom K a b = true → opDom K b c = true → opDom K a c = true := by
   intro p q
   by_cases ha : a = []
   · subst ha; rw [empty_dom_nothing] at p; simp at p
   by_cases hb : b = []
   · subst hb; rw [empty_dom_nothing] at q; simp at q
   by_cases hc : c = []
-  · subst hc; exact (nonempty_dom_empty key a ha).1
+  · subst hc; exact (nonempty_dom_empty K a ha).1
   have l1 : a.length = b.length := by
     rcases h1 with h | h | h
     · exact h
@@ -250,50 +286,198 @@ theorem dom_trans (a b c : List α) (h1 : SameDim a b) (h2 : SameDim b c) :
     · exact h
     · exact absurd h hb
     · exact absurd h hc
-  have p' := (dom_iff key a b l1).1 p
-  have q' := (dom_iff key b c l2).1 q
-  exact (dom_iff key a c (l1.trans l2)).2
-    ⟨allGe_trans key a b c l1 l2 p'.1 q'.1, exGt_trans_left key a b c l1 l2 p'.2 p'.1 q'.1⟩
+  have p' := (dom_iff K a b l1).1 p
+  have q' := (dom_iff K b c l2).1 q
+  exact (dom_iff K a c (l1.trans l2)).2
+    ⟨allGe_trans K.key a b c l1 l2 p'.1 q'.1, exGt_trans_left K.key a b c l1 l2 p'.2 p'.1 q'.1⟩
 
 /-- dominance implies lexicographic superiority -/
 theorem dom_imp_lex_gt (a b : List α) (hd : SameDim a b) :
-    dominating key a b = true → opGt key a b = true := by
+    opDom K a b = true → opGt K a b = true := by
   intro h
   rw [gt_is_lex]
   rcases hd with hl | he | he
-  · have p := (dom_iff key a b hl).1 h
-    simp [dom_lexCmp key a b hl p.1 p.2]
+  · have p := (dom_iff K a b hl).1 h
+    simp [dom_lexCmp K.key a b hl p.1 p.2]
   · subst he; rw [empty_dom_nothing] at h; simp at h
   · subst he
     cases a with
-    | nil => simp [dominating, domLoop] at h
+    | nil => rw [empty_dom_nothing] at h; simp at h
     | cons x xs => simp [lexCmp]
 
-/-! ### `model_measurements::operator>=` (dominance ∧ accuracy not worse) -/
+/-! ### `model_measurements::operator>=` (dominance ∧ accuracy not worse), as the code combines them -/
+
+theorem mmGe_code (x y : MM α) :
+    Gen.mmGe K.cmp K.ops x y =
+      some (opDom K x.fitness y.fitness && decide (K.key y.accuracy ≤ K.key x.accuracy)) := by
+  simp only [Gen.mmGe, dom_code, dominating_bridge, opDom_eq, call_some, Ctx.cmp, keyCmp_ge, keyCmp_le, keyCmp_lt, keyCmp_gt,
+    sge, sle, sgt, slt, ite_some_and, ite_some_or, ite_some_not_and, ite_some_not_or, apply_ite, ite_self]
+  try (cases dominating K.key x.fitness y.fitness <;> cases decide (K.key y.accuracy ≤ K.key x.accuracy) <;> rfl)
 
 theorem mmGe_spec (x y : MM α) :
-    mmGe key x y = (dominating key x.fitness y.fitness && decide (key y.accuracy ≤ key x.accuracy)) := by
-  simp only [mmGe, sge, sle, sgt, slt]
-  try rfl
+    opMmGe K x y = (opDom K x.fitness y.fitness && decide (K.key y.accuracy ≤ K.key x.accuracy)) := by
+  unfold opMmGe; rw [mmGe_code]; rfl
 
-theorem mmGe_irrefl (x : MM α) : mmGe key x x = false := by
+theorem mmGe_irrefl (x : MM α) : opMmGe K x x = false := by
   rw [mmGe_spec, dom_irrefl]; rfl
 
 theorem mmGe_asymm (x y : MM α) (hd : SameDim x.fitness y.fitness) :
-    mmGe key x y = true → mmGe key y x = false := by
+    opMmGe K x y = true → opMmGe K y x = false := by
   rw [mmGe_spec, mmGe_spec]
   intro h
   simp only [Bool.and_eq_true] at h
-  rw [dom_asymm key _ _ hd h.1]; rfl
+  rw [dom_asymm K _ _ hd h.1]; rfl
 
 theorem mmGe_trans (x y z : MM α) (h1 : SameDim x.fitness y.fitness) (h2 : SameDim y.fitness z.fitness) :
-    mmGe key x y = true → mmGe key y z = true → mmGe key x z = true := by
+    opMmGe K x y = true → opMmGe K y z = true → opMmGe K x z = true := by
   rw [mmGe_spec, mmGe_spec, mmGe_spec]
   simp only [Bool.and_eq_true, decide_eq_true_eq]
   intro ⟨p, q⟩ ⟨r, s⟩
-  exact ⟨dom_trans key _ _ _ h1 h2 p r, by omega⟩
+  exact ⟨dom_trans K _ _ _ h1 h2 p r, by omega⟩
 
 end
+
+/-! ### users of the order (`GenUsers.lean`: the call sites found in the library by the AST matchers)
+
+  Each use is well defined for NaN-free values: what the standard library requires of a comparison
+  (`std::map<fitness_t, …>` in `distribution`, `std::less`, and any algorithm of <algorithm> a
+  future change instantiates over fitness values) and what the hand-written selection / replacement
+  loops rely on. -/
+
+section
+variable {α : Type} (K : Ctx α)
+
+/-- `<` is a strict weak ordering (the *Compare* requirements of std::sort / std::max_element /
+    std::map): irreflexive, asymmetric, transitive, and incomparability is transitive (stated as
+    negative transitivity: `a < c` implies `a < b` or `b < c`) -/
+theorem lt_strict_weak :
+    (∀ a, opLt K a a = false) ∧ (∀ a b, opLt K a b = true → opLt K b a = false) ∧
+    (∀ a b c, opLt K a b = true → opLt K b c = true → opLt K a c = true) ∧
+    (∀ a b c, opLt K a c = true → opLt K a b = true ∨ opLt K b c = true) := by
+  refine ⟨lt_irrefl K, lt_asymm K, lt_trans K, ?_⟩
+  intro a b c h
+  rw [lt_is_lex] at h
+  rcases lexCmp_lt_cases K.key a b c (by simpa using h) with h' | h'
+  · left; rw [lt_is_lex, h']; rfl
+  · right; rw [lt_is_lex, h']; rfl
+
+/-- the equivalence a `std::map<fitness_t, …>` / `std::sort` sees (neither `a < b` nor `b < a`) is `==` -/
+theorem incomp_is_eq (a b : List α) : (!opLt K a b && !opLt K b a) = opEq K a b := by
+  rw [lt_is_lex, lt_is_lex, eq_is_lex, lexCmp_swap K.key a b]; cases lexCmp K.key a b <;> rfl
+
+/-- `>` (the comparison of the descending insertion sort and of every "better than" test) is a strict
+    weak ordering too -/
+theorem gt_strict_weak :
+    (∀ a, opGt K a a = false) ∧ (∀ a b, opGt K a b = true → opGt K b a = false) ∧
+    (∀ a b c, opGt K a b = true → opGt K b c = true → opGt K a c = true) ∧
+    (∀ a b c, opGt K a c = true → opGt K a b = true ∨ opGt K b c = true) := by
+  have L := lt_strict_weak K
+  refine ⟨fun a => by rw [gt_iff_lt_swap]; exact L.1 a,
+    fun a b h => by rw [gt_iff_lt_swap] at h ⊢; exact L.2.1 b a h, gt_trans K, ?_⟩
+  intro a b c h
+  rw [gt_iff_lt_swap] at h
+  rw [gt_iff_lt_swap K a b, gt_iff_lt_swap K b c]
+  exact (L.2.2.2 c b a h).symm
+
+/-- `>=` is total: of two values one is at least the other (`this->eva_(incoming) >= f_worst`) -/
+theorem ge_total (a b : List α) : opGe K a b = true ∨ opGe K b a = true := by
+  rw [ge_is_lex, ge_is_lex, lexCmp_swap K.key a b]; cases lexCmp K.key a b <;> simp
+
+/-- best-so-far update `if (f > best) best = f` (replacement strategies, brood recombination,
+    `search_stats::update`, `distribution::add`'s maximum): over any sequence of candidates the kept
+    value is one of them and none is better -/
+theorem keep_best_is_max (x : List α) (xs : List (List α)) :
+    keepBest (opGt K) x xs ∈ x :: xs ∧ ∀ y ∈ x :: xs, opGt K y (keepBest (opGt K) x xs) = false :=
+  keepBest_max (opGt K) (gt_strict_weak K).2.1 (gt_strict_weak K).2.2.2 xs x
+
+/-- one update never makes the best worse, and the candidate is not better than the result -/
+theorem best_update_ge (best f : List α) :
+    opGe K (keepBest (opGt K) best [f]) best = true ∧ opGe K (keepBest (opGt K) best [f]) f = true := by
+  simp only [keepBest, List.foldl_cons, List.foldl_nil]
+  cases h : opGt K f best with
+  | true =>
+    simp only [if_true]
+    refine ⟨?_, ?_⟩
+    · rw [ge_iff_gt_or_eq, h]; rfl
+    · rw [ge_is_lex, lexCmp_refl]; rfl
+  | false =>
+    simp only [Bool.false_eq_true, if_false]
+    refine ⟨by rw [ge_is_lex, lexCmp_refl]; rfl, ?_⟩
+    rw [ge_iff_not_lt, ← gt_iff_lt_swap, h]; rfl
+
+/-- tracking a worst value with `<` (kill tournament of ALPS, `distribution::add`'s minimum): the kept
+    value is a member that no member is below -/
+theorem loser_is_min (x : List α) (xs : List (List α)) :
+    keepBest (opLt K) x xs ∈ x :: xs ∧ ∀ y ∈ x :: xs, opLt K y (keepBest (opLt K) x xs) = false :=
+  keepBest_max (opLt K) (lt_strict_weak K).2.1 (lt_strict_weak K).2.2.2 xs x
+
+/-- `id_worst = fit_parent[0] < fit_parent[1] ? 0 : 1` picks a parent that is `<=` the other one -/
+theorem worst_of_two (f0 f1 : List α) :
+    (opLt K f0 f1 = true → opLe K f0 f1 = true) ∧ (opLt K f0 f1 = false → opLe K f1 f0 = true) := by
+  rw [lt_is_lex, le_is_lex, le_is_lex, lexCmp_swap K.key f0 f1]
+  cases lexCmp K.key f0 f1 <;> simp
+
+/-- the insertion loop of `selection::tournament::run` keeps `ret` sorted in descending order
+    (its debug assertion `eva(ret[i-1]) >= eva(ret[i])`) … -/
+theorem tour_insert_sorted (x : List α) (ret : List (List α)) (h : DescSorted (opGe K) ret) :
+    DescSorted (opGe K) (tourInsert (opGt K) x ret) := by
+  unfold DescSorted tourInsert
+  rw [List.reverse_reverse]
+  refine insAsc_chain (opGt K) (opGe K) ?_ ?_ x _ h
+  · intro a b hab; rw [ge_iff_gt_or_eq, hab]; rfl
+  · intro a b hab; rw [ge_iff_not_lt, ← gt_iff_lt_swap, hab]; rfl
+
+/-- … and only inserts: the result is a permutation of the old vector plus the new element -/
+theorem tour_insert_perm (x : List α) (ret : List (List α)) :
+    (tourInsert (opGt K) x ret).Perm (x :: ret) := by
+  unfold tourInsert
+  refine (List.reverse_perm _).trans ((insAsc_perm (opGt K) x ret.reverse).trans ?_)
+  exact List.Perm.cons x (List.reverse_perm ret)
+
+/-- the comparison of `std::pair<bool, fitness_t>` used by `selection::alps::run` is a strict weak
+    ordering -/
+theorem pairLt_strict_weak :
+    (∀ p, pairLt (opLt K) p p = false) ∧
+    (∀ p q, pairLt (opLt K) p q = true → pairLt (opLt K) q p = false) ∧
+    (∀ p q r, pairLt (opLt K) p q = true → pairLt (opLt K) q r = true → pairLt (opLt K) p r = true) ∧
+    (∀ p q r, pairLt (opLt K) p r = true → pairLt (opLt K) p q = true ∨ pairLt (opLt K) q r = true) := by
+  have L := lt_strict_weak K
+  refine ⟨?_, ?_, ?_, ?_⟩
+  · intro ⟨pb, pf⟩; cases pb <;> simp [pairLt, L.1]
+  · intro ⟨pb, pf⟩ ⟨qb, qf⟩
+    cases pb <;> cases qb <;> simp only [pairLt] <;> simp
+    all_goals exact L.2.1 pf qf
+  · intro ⟨pb, pf⟩ ⟨qb, qf⟩ ⟨rb, rf⟩
+    cases pb <;> cases qb <;> cases rb <;> simp only [pairLt] <;> simp
+    all_goals exact L.2.2.1 pf qf rf
+  · intro ⟨pb, pf⟩ ⟨qb, qf⟩ ⟨rb, rf⟩
+    cases pb <;> cases qb <;> cases rb <;> simp only [pairLt] <;> simp
+    all_goals exact L.2.2.2 pf qf rf
+
+/-- `selection::alps::run` keeps `age_fit0 >= age_fit1` (its assertion; `>=` on pairs is `!(<)`) -/
+theorem alps_top2_inv (s : (Bool × List α) × (Bool × List α)) (t : Bool × List α)
+    (h : pairLt (opLt K) s.1 s.2 = false) :
+    pairLt (opLt K) (top2Step (opLt K) s t).1 (top2Step (opLt K) s t).2 = false := by
+  unfold top2Step
+  cases h1 : pairLt (opLt K) s.1 t with
+  | true => simp only [if_true]; exact (pairLt_strict_weak K).2.1 _ _ h1
+  | false =>
+    simp only [Bool.false_eq_true, if_false]
+    cases h2 : pairLt (opLt K) s.2 t with
+    | true => simp only [if_true]; exact h1
+    | false => simp only [Bool.false_eq_true, if_false]; exact h
+
+end
+
+/-- every call site of a comparison on fitness values found in the library (`Gen.users`, extracted
+    from the AST) uses an operator on a kind of operand whose well-definedness is proved above -/
+theorem users_covered : ∀ u ∈ Gen.users, justifiedUse u = true := by decide
+
+/-- the call sites that sort / rank (inside libstdc++ and in the selection strategies) compare with a
+    strict weak ordering: `<` or `>` on fitness values or on `std::pair<bool, fitness_t>`, never with
+    `>=`, `<=` or the partial order `dominating` -/
+theorem ranking_users_strict_weak :
+    ∀ u ∈ Gen.users, needsStrictWeakOrder u = true → (u.2.2.1, u.2.2.2) ∈ strictWeakOrders := by decide
 
 /-! ### the bit-pattern instance -/
 
@@ -330,77 +514,154 @@ def KeyMono (hwLt hwEq : UInt64 → UInt64 → Bool) : Prop :=
   ∀ a b, isNaNBits a = false → isNaNBits b = false →
     hwLt a b = decide (dkey a < dkey b) ∧ hwEq a b = decide (dkey a = dkey b)
 
-/-! ### element-wise arithmetic, joining, distance and rounding against the scalar definitions -/
+/-! ### element-wise arithmetic, predicates, joining, distance, rounding and printing: the generated
+    bodies against the scalar definitions (for EVERY comparison interface and EVERY arithmetic:
+    NaN, infinities and all lengths included) -/
 
 section
-variable {F : Type} (o : FOps F)
+variable {F : Type} (c : Cmp F) (o : FOps F)
 
-/-- `+= −= *=` (hence `+ − *`): component `i` of the result is the scalar operation on components `i` -/
-theorem vzip_get (op : F → F → F) (a b : List F) (h : a.length ≤ b.length) :
-    ∃ r, vzip op a b = some r ∧ r.length = a.length ∧
-      ∀ i (hi : i < a.length), r[i]? = some (op a[i] (b[i]'(by omega))) := by
-  refine ⟨List.zipWith op a b, vzip_eq op a b h, by simp; omega, ?_⟩
-  intro i hi
-  rw [List.getElem?_eq_getElem (by simp; omega)]
-  simp
+/-- `a + b`: defined exactly when `b` is not shorter than `a`; the result has the length of `a` and
+    component `i` is the scalar sum of components `i` (components of `b` beyond `a.size()` are ignored) -/
+theorem add_get (a b : List F) (h : a.length ≤ b.length) :
+    ∃ r, Gen.opAdd c o a b = some r ∧ r.length = a.length ∧
+      ∀ i (hi : i < a.length), r[i]? = some (o.add a[i] (b[i]'(by omega))) := by
+  rw [opAdd_bridge]; exact vzip_get o.add a b h
+theorem sub_get (a b : List F) (h : a.length ≤ b.length) :
+    ∃ r, Gen.opSub c o a b = some r ∧ r.length = a.length ∧
+      ∀ i (hi : i < a.length), r[i]? = some (o.sub a[i] (b[i]'(by omega))) := by
+  rw [opSub_bridge]; exact vzip_get o.sub a b h
+theorem mul_get (a b : List F) (h : a.length ≤ b.length) :
+    ∃ r, Gen.opMul c o a b = some r ∧ r.length = a.length ∧
+      ∀ i (hi : i < a.length), r[i]? = some (o.mul a[i] (b[i]'(by omega))) := by
+  rw [opMul_bridge]; exact vzip_get o.mul a b h
 
-theorem vadd_get (a b : List F) (h : a.length ≤ b.length) :
-    ∃ r, vadd o a b = some r ∧ r.length = a.length ∧
-      ∀ i (hi : i < a.length), r[i]? = some (o.add a[i] (b[i]'(by omega))) := vzip_get o.add a b h
-theorem vsub_get (a b : List F) (h : a.length ≤ b.length) :
-    ∃ r, vsub o a b = some r ∧ r.length = a.length ∧
-      ∀ i (hi : i < a.length), r[i]? = some (o.sub a[i] (b[i]'(by omega))) := vzip_get o.sub a b h
-theorem vmul_get (a b : List F) (h : a.length ≤ b.length) :
-    ∃ r, vmul o a b = some r ∧ r.length = a.length ∧
-      ∀ i (hi : i < a.length), r[i]? = some (o.mul a[i] (b[i]'(by omega))) := vzip_get o.mul a b h
+/-- a shorter right operand is read past its end (the code's `Expects(i < size())`) -/
+theorem add_short (a b : List F) (h : b.length < a.length) : Gen.opAdd c o a b = none := by
+  rw [opAdd_bridge]; exact vzip_none o.add a b h
+theorem sub_short (a b : List F) (h : b.length < a.length) : Gen.opSub c o a b = none := by
+  rw [opSub_bridge]; exact vzip_none o.sub a b h
+theorem mul_short (a b : List F) (h : b.length < a.length) : Gen.opMul c o a b = none := by
+  rw [opMul_bridge]; exact vzip_none o.mul a b h
 
-/-- the right operand must not be shorter (the code's `Expects(i < size())`) -/
-theorem vzip_short (op : F → F → F) (a b : List F) (h : b.length < a.length) : vzip op a b = none :=
-  vzip_none op a b h
+/-- the binary operators are their compound assignments (`return lhs += rhs;`) -/
+theorem op_eq_assign (a b : List F) :
+    Gen.opAdd c o a b = Gen.addAssign c o a b ∧ Gen.opSub c o a b = Gen.subAssign c o a b ∧
+      Gen.opMul c o a b = Gen.mulAssign c o a b := by
+  rw [opAdd_bridge, opSub_bridge, opMul_bridge, addAssign_bridge, subAssign_bridge, mulAssign_bridge]
+  exact ⟨rfl, rfl, rfl⟩
 
-theorem vdivS_get (a : List F) (v : F) (i : Nat) : (vdivS o a v)[i]? = a[i]?.map (o.div · v) := by
-  simp [vdivS]
-theorem vmulS_get (a : List F) (v : F) (i : Nat) : (vmulS o a v)[i]? = a[i]?.map (o.mul · v) := by
-  simp [vmulS]
-theorem vabs_get (a : List F) (i : Nat) : (vabs o a)[i]? = a[i]?.map o.abs := by simp [vabs]
-theorem vsqrt_get (a : List F) (i : Nat) : (vsqrt o a)[i]? = a[i]?.map o.sqrt := by simp [vsqrt]
-theorem vround_get (a : List F) (i : Nat) :
-    (vround o a)[i]? = a[i]?.map (fun x => o.mul (o.round (o.div x o.eps)) o.eps) := by
-  simp only [vround, List.getElem?_map]; rfl
+/-- the scalar helpers of utility.h -/
+theorem roundToS_def (x : F) :
+    Gen.roundToS c o x = some (o.mul (o.round (o.div x (o.lit bitsRoundEps))) (o.lit bitsRoundEps)) := by
+  rw [roundToS_bridge]; rfl
+theorem issmallS_def (x : F) :
+    Gen.issmallS c o x = some (c.lt (o.abs x) (o.mul (o.lit bitsTwo) (o.lit bitsMachEps))) := by
+  rw [issmallS_bridge]; rfl
+theorem isnonnegativeS_def (x : F) : Gen.isnonnegativeS c o x = some (c.le (o.lit bitsZero) x) := by
+  rw [isnonnegativeS_bridge]; rfl
+theorem almostEqualS_def (x y e : F) :
+    Gen.almostEqualS c o x y e =
+      some (c.lt (o.abs (o.abs (o.sub x y))) (o.mul (o.lit bitsTwo) (o.lit bitsMachEps)) ||
+        c.le (o.abs (o.sub x y)) (o.mul (if c.lt (o.abs x) (o.abs y) then o.abs y else o.abs x) e)) := by
+  rw [almostEqualS_bridge]; rfl
+
+/-- `f / v`, `f * v`, `abs`, `sqrt`, `round_to`: never fault, keep the length, component `i` of the
+    result is the scalar function of component `i` -/
+theorem divS_get (a : List F) (v : F) :
+    ∃ r, Gen.opDivS c o a v = some r ∧ r.length = a.length ∧ ∀ i : Nat, r[i]? = a[i]?.map (o.div · v) := by
+  rw [opDivS_bridge]; exact ⟨_, rfl, by simp [vdivS], fun i => by simp [vdivS]⟩
+theorem mulS_get (a : List F) (v : F) :
+    ∃ r, Gen.opMulS c o a v = some r ∧ r.length = a.length ∧ ∀ i : Nat, r[i]? = a[i]?.map (o.mul · v) := by
+  rw [opMulS_bridge]; exact ⟨_, rfl, by simp [vmulS], fun i => by simp [vmulS]⟩
+theorem abs_get (a : List F) :
+    ∃ r, Gen.abs c o a = some r ∧ r.length = a.length ∧ ∀ i : Nat, r[i]? = a[i]?.map o.abs := by
+  rw [abs_bridge]; exact ⟨_, rfl, by simp [vabs], fun i => by simp [vabs]⟩
+theorem sqrt_get (a : List F) :
+    ∃ r, Gen.sqrt c o a = some r ∧ r.length = a.length ∧ ∀ i : Nat, r[i]? = a[i]?.map o.sqrt := by
+  rw [sqrt_bridge]; exact ⟨_, rfl, by simp [vsqrt], fun i => by simp [vsqrt]⟩
+theorem round_get (a : List F) :
+    ∃ r, Gen.roundTo c o a = some r ∧ r.length = a.length ∧
+      ∀ i : Nat, r[i]? = a[i]?.map (fun x => o.mul (o.round (o.div x (o.lit bitsRoundEps))) (o.lit bitsRoundEps)) := by
+  rw [roundTo_bridge]
+  exact ⟨_, rfl, by simp [vround], fun i => by simp only [vround, List.getElem?_map]; rfl⟩
+
+/-- the predicates: `isfinite` / `issmall` / `isnonnegative` hold of every component, `isnan` of some -/
+theorem isfinite_all (a : List F) : Gen.isfinite c o a = some (a.all o.isfinite) := by
+  rw [isfinite_bridge]; rfl
+theorem isnan_any (a : List F) : Gen.isnan c o a = some (a.any o.isnan) := by
+  rw [isnan_bridge]; rfl
+theorem issmall_all (a : List F) :
+    Gen.issmall c o a = some (a.all fun x => c.lt (o.abs x) (o.mul (o.lit bitsTwo) (o.lit bitsMachEps))) := by
+  rw [issmall_bridge]; rfl
+theorem isnonnegative_all (a : List F) :
+    Gen.isnonnegative c o a = some (a.all fun x => c.le (o.lit bitsZero) x) := by
+  rw [isnonnegative_bridge]; rfl
+
+/-- `almost_equal(f1, f2, e)`: when `f2` is not shorter, every pair of components is almost equal -/
+theorem almostEqual_all (a b : List F) (e : F) (h : a.length ≤ b.length) :
+    Gen.almostEqual c o a b e = some ((List.zipWith (fun x y => aeqSpec c o x y e) a b).all id) := by
+  rw [almostEqual_bridge]; exact vaeq_eq c o e a b h
+/-- a shorter `f2` is read past its end unless an earlier pair already differs -/
+theorem almostEqual_short (a b : List F) (e : F) (h : b.length < a.length) :
+    Gen.almostEqual c o a b e = none ∨ Gen.almostEqual c o a b e = some false := by
+  rw [almostEqual_bridge]; exact vaeq_short c o e a b h
 
 /-- joining: the components of `f1` followed by those of `f2` -/
-theorem combine_get (a b : List F) (i : Nat) :
-    (combine a b)[i]? = if i < a.length then a[i]? else b[i - a.length]? := by
+theorem combine_get (a b : List F) :
+    ∃ r, Gen.combine c o a b = some r ∧ r.length = a.length + b.length ∧
+      ∀ i : Nat, r[i]? = if i < a.length then a[i]? else b[i - a.length]? := by
+  rw [combine_bridge]
+  refine ⟨_, rfl, by simp [combine], fun i => ?_⟩
   simp only [combine, List.nil_append]
   split
   · rw [List.getElem?_append_left (by assumption)]
   · rw [List.getElem?_append_right (by omega)]
 
-theorem combine_length (a b : List F) : (combine a b).length = a.length + b.length := by
-  simp [combine]
-
 /-- taxicab distance: the left-to-right sum, from 0, of `|a_i − b_i|` -/
 theorem distance_sum (a b : List F) (h : a.length ≤ b.length) :
-    distance o a b = some ((List.zipWith (fun x y => o.abs (o.sub x y)) a b).foldl o.add o.zero) :=
-  distLoop_eq o o.zero a b h
+    Gen.distance c o a b =
+      some ((List.zipWith (fun x y => o.abs (o.sub x y)) a b).foldl o.add (o.lit bitsZero)) := by
+  rw [distance_bridge]; exact distLoop_eq o _ a b h
+theorem distance_short (a b : List F) (h : b.length < a.length) : Gen.distance c o a b = none := by
+  rw [distance_bridge]; exact distLoop_none o _ a b h
+
+/-- `operator<<`: `(` the components printed by `fmt`, separated by `", "` `)` -/
+theorem show_spec (fmt : F → String) (a : List F) :
+    Gen.showFit c o fmt a = some ("(" ++ joinSep ", " (a.map fmt) ++ ")") := by
+  rw [showFit_bridge]; rfl
 
 end
 
 /-! ### the statements are not vacuous -/
 
-example : opLt (fun x : Int => x) [1, 5] [2] = true := by decide
-example : opLt (fun x : Int => x) [1] [1, 0] = true := by decide
-example : opGe (fun x : Int => x) [] [] = true := by decide
-example : dominating (fun x : Int => x) [1, 5] [1, 4] = true := by decide
-example : dominating (fun x : Int => x) [2, 3] [1, 4] = false ∧ dominating (fun x : Int => x) [1, 4] [2, 3] = false := by decide
+example : opLt intCtx [1, 5] [2] = true := by decide
+example : opLt intCtx [1] [1, 0] = true := by decide
+example : opGe intCtx [] [] = true := by decide
+example : opDom intCtx [1, 5] [1, 4] = true := by decide
+example : opDom intCtx [2, 3] [1, 4] = false ∧ opDom intCtx [1, 4] [2, 3] = false := by decide
 example : SameDim [1, 5] ([] : List Int) ∧ SameDim [1, 5] [1, 4] := ⟨Or.inr (Or.inr rfl), Or.inl rfl⟩
-example : winner (opGt (fun x : Int => x)) [[1], [3], [2]] = some [3] := by decide
-example : mmGe (fun x : Int => x) ⟨[1, 5], 3⟩ ⟨[1, 4], 3⟩ = true := by decide
+example : winner (opGt intCtx) [[1], [3], [2]] = some [3] := by decide
+example : opMmGe intCtx ⟨[1, 5], 3⟩ ⟨[1, 4], 3⟩ = true := by decide
 -- -0.0 == +0.0, -inf < -0.0, 1.0 < +inf on bit patterns
-example : opEq dkey [0x8000000000000000] [0] = true := by decide
-example : opLt dkey [0xFFF0000000000000] [0x8000000000000000] = true := by decide
-example : opLt dkey [0x3FF0000000000000] [0x7FF0000000000000] = true := by decide
+example : opEq bitsCtx [0x8000000000000000] [0] = true := by decide
+example : opLt bitsCtx [0xFFF0000000000000] [0x8000000000000000] = true := by decide
+example : opLt bitsCtx [0x3FF0000000000000] [0x7FF0000000000000] = true := by decide
 example : isNaNBits 0x7FF0000000000000 = false ∧ isNaNBits 0x7FF8000000000000 = true ∧
     isNaNBits 0xFFF0000000000001 = true := by decide
+-- element-wise code on integers: lengths 2 ≤ 3, the extra component of the right operand is ignored
+example : Gen.opAdd intCtx.cmp intCtx.ops [1, 2] [10, 20, 30] = some [11, 22] := by decide
+example : Gen.opAdd intCtx.cmp intCtx.ops [1, 2] [10] = none := by decide
+example : Gen.almostEqual intCtx.cmp intCtx.ops [1, 2] [1] 0 = none := by decide
+example : Gen.combine intCtx.cmp intCtx.ops [1] [2, 3] = some [1, 2, 3] := by decide
+example : Gen.showFit intCtx.cmp intCtx.ops (fun x => toString x) [1, 2] = some "(1, 2)" := by decide
+-- users: a descending vector stays descending, the ALPS pair order prefers "not aged"
+example : DescSorted (opGe intCtx) [[3], [2], [2]] ∧ tourInsert (opGt intCtx) [2] [[3], [2], [1]] = [[3], [2], [2], [1]] := by
+  refine ⟨?_, by decide⟩
+  show AscChain (opGe intCtx) [[2], [2], [3]]
+  exact ⟨by decide, by decide, trivial⟩
+example : pairLt (opLt intCtx) (false, [9]) (true, [1]) = true ∧ pairLt (opLt intCtx) (true, [1]) (true, [2]) = true := by
+  decide
+example : Gen.users ≠ [] := by decide
 
 end Vita.C18
